@@ -97,6 +97,10 @@ class C19(PureCheck):
                 r = {"k": "r", "v": l, "variant": j}
                 yield {"op": "eq", "x": {"k": "f", "v": l}, "y": r}
                 yield {"op": "eq", "x": r, "y": {"k": "f", "v": l}}
+        # values of different concrete classes (an application's subclass against the base class and against a str)
+        for l in (fpool[:40] if tier == "quick" else fpool[:200]):
+            for other in ({"k": "f", "v": l}, {"k": "r", "v": l, "variant": 0}, {"k": "f", "v": l[::-1]}):
+                yield {"op": "eq", "x": {"k": "f", "v": l}, "y": other, "subx": 1}
         # a run whose TEXT holds a raw SGR sequence (FmtStr + str keeps a str operand verbatim) against the properly
         # formatted value with the same terminal string - cold, and with the views of both looked at before
         raw = [[97], [0] * 8], [[27, 91, 51, 49, 109, 98, 27, 91, 51, 57, 109], [0] * 8]
@@ -119,6 +123,18 @@ class C19(PureCheck):
             # every observation on operands of its own, built afresh (never rendered, unless this input is a warmed
             # one): comparing must not depend on whether a value's terminal string was computed before
             def pair():
+                if inp.get("subx"):
+                    # x is an instance of an application's FmtStr subclass, y of the base class (or a str)
+                    saved = enc.WARM
+                    enc.WARM = saved | 128
+                    try:
+                        x = spelled(inp["x"])
+                    finally:
+                        enc.WARM = saved & ~128
+                    try:
+                        return x, spelled(inp["y"])
+                    finally:
+                        enc.WARM = saved
                 return spelled(inp["x"]), spelled(inp["y"])
             x, y = pair()
             ev["eq"] = int(bool(x == y))
